@@ -21,13 +21,30 @@ fn presence_of(i: u64) -> (Presence, &'static str) {
     }
 }
 
+pub const HOSTILE_KEYS: &[&str] = &["/", "//", "///", "a/", "/a", "a//b", ".", "..", "./.", "../x", " ", "%", "%2F", "?", "#", "+", "&=", "é", "日本/", "\u{1F600}"];
+
 pub fn judge_looped(rt: &tokio::runtime::Runtime, r: &mut Report, op: &str, cfg: &LoopCfg, seed: u64, pidx: u64) {
+    judge_looped_key(rt, r, op, cfg, seed, pidx, None);
+}
+
+pub fn judge_looped_key(rt: &tokio::runtime::Runtime, r: &mut Report, op: &str, cfg: &LoopCfg, seed: u64, pidx: u64, key: Option<&str>) {
     let (presence, pname) = presence_of(pidx);
+    let pname = if key.is_some() { "hostile-key" } else { pname };
     let mut g = gen_for(seed, presence);
+    let forced = key.map(str::to_owned);
+    let rule = move |s: &str, f: &str, t: &str, d: usize| -> crate::vgen::FieldRule {
+        if d == 1 && f == "key" && s.ends_with("Input") {
+            if let Some(k) = &forced {
+                return crate::vgen::FieldRule::Str(k.clone());
+            }
+        }
+        input_rule(s, f, t, d)
+    };
+    g.rule = Some(&rule);
     let Some(input) = gen_input(op, &mut g) else { harness_error(&format!("unknown op {op}")) };
     let input_dbg = input.debug();
     let res = std::panic::catch_unwind(std::panic::AssertUnwindSafe(|| drive(rt, cfg, None, input)));
-    let wit = |extra: Value| json!({"kind": "looped", "op": op, "cfg": cfg, "seed": seed.to_string(), "pidx": pidx, "input": input_dbg.chars().take(1500).collect::<String>(), "detail": extra});
+    let wit = |extra: Value| json!({"kind": "looped", "op": op, "cfg": cfg, "seed": seed.to_string(), "pidx": pidx, "key": key, "input": input_dbg.chars().take(1500).collect::<String>(), "detail": extra});
     let lr = match res {
         Ok(x) => x,
         Err(p) => {
@@ -218,6 +235,14 @@ pub fn run(ctx: &RunCtx) -> i32 {
                 judge_looped(&rt, r, op, cfg, derive_seed(ctx.seed, op, (ci as u64) << 16 | i), pidx);
             }
         }
+        // object-level operations: hostile keys, systematically, in both addressing styles
+        if OPS[j as usize].in_members.iter().any(|m| m.rust == "key" && m.binding == "label") {
+            for (ki, key) in HOSTILE_KEYS.iter().enumerate() {
+                for ci in [0usize, 2] {
+                    judge_looped_key(&rt, r, op, &cfgs[ci], derive_seed(ctx.seed, op, 0xbeef00 + ki as u64), 0, Some(key));
+                }
+            }
+        }
     });
     total.note(format!("S3 trait has {} operations; model operations without a trait method: {:?}", ops.len(), MODEL_ONLY_OPS));
     let routes = model_routes();
@@ -240,7 +265,7 @@ pub fn replay(v: &Value) -> i32 {
         "looped" => {
             let cfg: LoopCfg = serde_json::from_value(w["cfg"].clone()).unwrap_or_else(|e| harness_error(&format!("bad cfg: {e}")));
             let seed: u64 = w["seed"].as_str().and_then(|s| s.parse().ok()).unwrap_or(0);
-            judge_looped(&rt, &mut r, w["op"].as_str().unwrap_or(""), &cfg, seed, w["pidx"].as_u64().unwrap_or(0));
+            judge_looped_key(&rt, &mut r, w["op"].as_str().unwrap_or(""), &cfg, seed, w["pidx"].as_u64().unwrap_or(0), w["key"].as_str());
         }
         "noop" => {
             let req: RawRequest = serde_json::from_value(w["request_raw"].clone()).unwrap_or_else(|e| harness_error(&format!("bad request: {e}")));
